@@ -105,3 +105,120 @@ Proof.
 Qed.
 
 End Limit.
+
+(** a function vanishing at 0 whose derivative is O(e |x|^m) near 0 is O(e |x|^(m+1)) *)
+Lemma mvt_small (F f : R -> R) (d e : R) (m : nat) :
+  (forall x, Rabs x < d -> derivable_pt_lim F x (f x)) -> F 0 = 0 ->
+  (forall x, x <> 0 -> Rabs x < d -> Rabs (f x) <= e * Rabs x ^ m) ->
+  forall x, x <> 0 -> Rabs x < d -> Rabs (F x) <= e * Rabs x ^ S m.
+Proof.
+  intros HF H0 Hf x Hx Hxd.
+  assert (He : 0 <= e).
+  { specialize (Hf x Hx Hxd). pose proof (Rabs_pos (f x)) as P.
+    assert (Q : 0 < Rabs x ^ m) by (apply pow_lt; now apply Rabs_pos_lt).
+    destruct (Rle_or_lt 0 e) as [|Hn]; [assumption|]. exfalso. nra. }
+  assert (K : forall xi, xi <> 0 -> Rabs xi <= Rabs x -> Rabs (f xi) <= e * Rabs x ^ m).
+  { intros xi Hxi Hle. eapply Rle_trans; [apply Hf; [exact Hxi|lra]|].
+    apply Rmult_le_compat_l; [exact He|]. apply pow_incr. split; [apply Rabs_pos|exact Hle]. }
+  destruct (Rtotal_order x 0) as [Hneg|[Hz|Hpos]]; [|contradiction|].
+  - destruct (MVT_cor2 F f x 0 Hneg) as (xi & Hxi & Hxi1).
+    { intros y [Hy1 Hy2]. apply HF. rewrite (Rabs_left1 y Hy2). rewrite (Rabs_left x Hneg) in Hxd. lra. }
+    rewrite H0 in Hxi.
+    assert (Hb : Rabs (f xi) <= e * Rabs x ^ m).
+    { apply K; [lra|]. rewrite (Rabs_left xi) by lra. rewrite (Rabs_left x) by lra. lra. }
+    replace (F x) with (- (f xi * (0 - x))) by lra.
+    rewrite Rabs_Ropp, Rabs_mult. rewrite (Rabs_right (0 - x)) by lra.
+    rewrite (Rabs_left x Hneg) in *. cbn [pow].
+    replace (e * (- x * (- x) ^ m)) with (e * (- x) ^ m * (0 - x)) by ring.
+    apply Rmult_le_compat_r; lra.
+  - destruct (MVT_cor2 F f 0 x Hpos) as (xi & Hxi & Hxi1).
+    { intros y [Hy1 Hy2]. apply HF. rewrite (Rabs_right y) by lra. rewrite (Rabs_right x) in Hxd by lra. lra. }
+    rewrite H0 in Hxi.
+    assert (Hb : Rabs (f xi) <= e * Rabs x ^ m).
+    { apply K; [lra|]. rewrite (Rabs_right xi) by lra. rewrite (Rabs_right x) by lra. lra. }
+    replace (F x) with (f xi * (x - 0)) by lra.
+    rewrite Rabs_mult. rewrite (Rabs_right (x - 0)) by lra.
+    rewrite (Rabs_right x) in * by lra. cbn [pow].
+    replace (e * (x * x ^ m)) with (e * x ^ m * (x - 0)) by ring.
+    apply Rmult_le_compat_r; lra.
+Qed.
+
+Section Limit3.
+Variables (g g1 g2 : R -> R) (k d0 : R).
+Hypothesis Hd0 : 0 < d0.
+Hypothesis Hg : forall x, Rabs x < d0 -> derivable_pt_lim g x (g1 x).
+Hypothesis Hg1 : forall x, Rabs x < d0 -> derivable_pt_lim g1 x (g2 x).
+Hypothesis Hg2 : derivable_pt_lim g2 0 k.
+Hypothesis Hg0 : g 0 = 0.
+Hypothesis Hg10 : g1 0 = 0.
+Let c := g2 0.
+
+Let r2 (x : R) := g2 x - c - k * x.
+Let r1 (x : R) := g1 x - c * x - k * x ^ 2 / 2.
+Let r0 (x : R) := g x - c * x ^ 2 / 2 - k * x ^ 3 / 6.
+
+Lemma r1_derive x : Rabs x < d0 -> derivable_pt_lim r1 x (r2 x).
+Proof.
+  intros Hx. unfold r1, r2.
+  replace (g2 x - c - k * x) with (g2 x - c * 1 - k * (INR 2 * x ^ 1) / 2) by (simpl; field).
+  apply derivable_pt_lim_minus; [apply derivable_pt_lim_minus; [now apply Hg1|]|].
+  - apply derivable_pt_lim_scal. apply derivable_pt_lim_id.
+  - unfold Rdiv. apply (derivable_pt_lim_scal_right (fun y => k * y ^ 2)).
+    apply derivable_pt_lim_scal. apply derivable_pt_lim_pow.
+Qed.
+
+Lemma r0_derive x : Rabs x < d0 -> derivable_pt_lim r0 x (r1 x).
+Proof.
+  intros Hx. unfold r0, r1.
+  replace (g1 x - c * x - k * x ^ 2 / 2) with (g1 x - c * (INR 2 * x ^ 1) / 2 - k * (INR 3 * x ^ 2) / 6) by (simpl; field).
+  apply derivable_pt_lim_minus; [apply derivable_pt_lim_minus; [now apply Hg|]|].
+  - unfold Rdiv. apply (derivable_pt_lim_scal_right (fun y => c * y ^ 2)).
+    apply derivable_pt_lim_scal. apply derivable_pt_lim_pow.
+  - unfold Rdiv. apply (derivable_pt_lim_scal_right (fun y => k * y ^ 3)).
+    apply derivable_pt_lim_scal. apply derivable_pt_lim_pow.
+Qed.
+
+Lemma r2_small e : 0 < e -> exists delta, 0 < delta /\ delta <= d0 /\
+  forall x, x <> 0 -> Rabs x < delta -> Rabs (r2 x) <= e * Rabs x ^ 1.
+Proof.
+  intros He. destruct (Hg2 e He) as [delta Hdelta].
+  exists (Rmin delta d0). split; [apply Rmin_pos; [apply cond_pos|exact Hd0]|]. split; [apply Rmin_r|].
+  intros x Hx Hxd. assert (Hxd' : Rabs x < delta) by (eapply Rlt_le_trans; [exact Hxd|apply Rmin_l]).
+  specialize (Hdelta x Hx Hxd'). rewrite Rplus_0_l in Hdelta. fold c in Hdelta.
+  unfold r2. replace (g2 x - c - k * x) with (((g2 x - c) / x - k) * x) by (field; exact Hx).
+  rewrite Rabs_mult, pow_1. apply Rmult_le_compat_r; [apply Rabs_pos|lra].
+Qed.
+
+(** with B = g''(0)/2 the limit of (Z-1)/rho:  ((Z-1)/rho - B)/rho  tends to  g'''(0)/3 *)
+Theorem virial_limit3 : forall eps, 0 < eps -> exists delta, 0 < delta /\
+  forall rho, rho <> 0 -> Rabs rho < delta ->
+    Rabs (((rho * g1 rho - g rho) / rho ^ 2 - c / 2) / rho - k / 3) < eps.
+Proof.
+  intros eps Heps.
+  destruct (r2_small (eps / 3) ltac:(lra)) as (delta & Hdelta & Hdd & H2).
+  exists delta. split; [exact Hdelta|]. intros rho Hrho Hrd.
+  assert (Hr1 : forall x, x <> 0 -> Rabs x < delta -> Rabs (r1 x) <= eps / 3 * Rabs x ^ 2).
+  { apply (mvt_small r1 r2 delta (eps / 3) 1).
+    - intros x Hx. apply r1_derive. lra.
+    - unfold r1. rewrite Hg10. simpl. field.
+    - exact H2. }
+  assert (Hr0 : forall x, x <> 0 -> Rabs x < delta -> Rabs (r0 x) <= eps / 3 * Rabs x ^ 3).
+  { apply (mvt_small r0 r1 delta (eps / 3) 2).
+    - intros x Hx. apply r0_derive. lra.
+    - unfold r0. rewrite Hg0. simpl. field.
+    - exact Hr1. }
+  specialize (Hr1 rho Hrho Hrd). specialize (Hr0 rho Hrho Hrd).
+  assert (Ha : 0 < Rabs rho) by (now apply Rabs_pos_lt).
+  replace (((rho * g1 rho - g rho) / rho ^ 2 - c / 2) / rho - k / 3)
+    with (r1 rho / rho ^ 2 - r0 rho / rho ^ 3) by (unfold r1, r0; field; exact Hrho).
+  eapply Rle_lt_trans; [apply Rabs_triang|]. rewrite Rabs_Ropp.
+  unfold Rdiv. rewrite !Rabs_mult, !Rabs_inv, <- !RPow_abs.
+  assert (A1 : Rabs (r1 rho) * / Rabs rho ^ 2 <= eps / 3).
+  { apply Rmult_le_reg_r with (Rabs rho ^ 2); [now apply pow_lt|].
+    rewrite Rmult_assoc, Rinv_l, Rmult_1_r by (apply pow_nonzero; lra). exact Hr1. }
+  assert (A2 : Rabs (r0 rho) * / Rabs rho ^ 3 <= eps / 3).
+  { apply Rmult_le_reg_r with (Rabs rho ^ 3); [now apply pow_lt|].
+    rewrite Rmult_assoc, Rinv_l, Rmult_1_r by (apply pow_nonzero; lra). exact Hr0. }
+  lra.
+Qed.
+End Limit3.
